@@ -65,10 +65,18 @@ TSynced == /\ IsEvent("pc.synced") /\ PC!Synced(I)
                          \cup Flag(Ev.zeroes = zeroes'[I], "number of zero bytes differs")
            /\ Keep
 TSkipCheck == /\ IsEvent("pc.skipcheck") /\ PC!ToSkip(I) /\ UNCHANGED bad /\ Keep
+\* A worker leaves its loop.  Why it leaves (end of data, interruption, error) is the implementation's
+\* business: the flags are taken from the log, and the property decides through the aggregator's result.
+\* Only a claim the data contradicts is flagged: end-of-stream before the end of the data.
 TStopping == /\ IsEvent("pc.stopping")
-             /\ \/ PC!Produce(I) /\ pc'[I] = "stopping"
-                \/ PC!InSyncStop(I)
-             /\ bad' = bad \cup Flag(Ev.eof = eof'[I], "eof flag differs") \cup Flag(Ev.err = err'[I], "error flag differs")
+             /\ \/ /\ pc[I] = "top"
+                   /\ eof' = [eof EXCEPT ![I] = Ev.eof] /\ err' = [err EXCEPT ![I] = Ev.err]
+                   /\ pc' = [pc EXCEPT ![I] = "stopping"]
+                   /\ UNCHANGED <<P, bnd, nulls, cancelled, pos, bucket, pending, closed, active, sync, nxt, chunk,
+                                  prev, zeroes, insync, nulltodo, mi, out, mres>>
+                   /\ bad' = bad \cup Flag(Ev.eof => pos[I] >= P.L, "end of stream reported before the end of the data")
+                \/ /\ PC!InSyncStop(I)
+                   /\ bad' = bad \cup Flag(~Ev.eof /\ ~Ev.err, "in-sync stop reports eof or error")
              /\ Keep
 TStopped == /\ IsEvent("pc.stopped") /\ PC!Stop(I) /\ UNCHANGED bad /\ Keep
 \* close(results) may be observed by the aggregator before the worker's pc.closed is logged
@@ -103,10 +111,12 @@ TDrained == /\ IsEvent("pc.drained")
 TCancel == /\ IsEvent("cancel") /\ (PC!Cancel \/ (cancelled /\ UNCHANGED pvars) \/ (mres # "none" /\ UNCHANGED pvars))
            /\ UNCHANGED bad /\ Keep
 \* what IndexFromFile returned
+\* Success must deliver exactly the single-stream chunk sequence with correct IDs and parameters (C02),
+\* also when the run was cancelled (C07); a failure is only acceptable for a cancelled run, and then it
+\* must be the interruption error.
 TResult == /\ IsEvent("result")
-           /\ resok' = /\ (Ev.res = "ok") = (mres = "ok")
-                       /\ (Ev.res = "ok") => (Ev.chunks = out /\ Ev.idsok /\ Ev.paramsok)
-                       /\ (Ev.res # "ok") => (mres = "err" /\ Ev.res = "interrupted")
+           /\ resok' = /\ (Ev.res = "ok") => (Ev.chunks = ref /\ Ev.idsok /\ Ev.paramsok)
+                       /\ (Ev.res # "ok") => (cancelled /\ Ev.res = "interrupted")
            /\ UNCHANGED pvars /\ UNCHANGED <<bad, scen, ref>>
 \* bookkeeping records of the driver
 TSkip == /\ (IsEvent("stragglers")) /\ UNCHANGED pvars /\ UNCHANGED <<bad, scen, ref, resok>>
